@@ -20,9 +20,7 @@ func (c ComplexAndPlanner) Process(ctx *shared.PlannerContext) (sql.ISelect, err
 		if err != nil {
 			return nil, err
 		}
-		selects[i].Select(
-			append(selects[i].GetSelect(),
-				sql.NewSimpleCol("max(timestamp_ns)", "max_timestamp_ns"))...)
+		selects[i].Select(append(selects[i].GetSelect(), maxTimestampCol(op))...)
 		with := sql.NewWith(selects[i], fmt.Sprintf("_%d_pre_", i))
 		selects[i] = sql.NewSelect().
 			With(with).
@@ -40,7 +38,8 @@ func (c ComplexAndPlanner) Process(ctx *shared.PlannerContext) (sql.ISelect, err
 			selects: selects,
 		}, c.Prefix+"a")).
 		GroupBy(sql.NewRawObject("trace_id")).
-		OrderBy(sql.NewOrderBy(sql.NewRawObject("max(max_timestamp_ns)"), sql.ORDER_BY_DIRECTION_DESC)), nil
+		OrderBy(sql.NewOrderBy(sql.NewRawObject(fmt.Sprintf("max(%sa.max_timestamp_ns)", c.Prefix)),
+			sql.ORDER_BY_DIRECTION_DESC)), nil
 }
 
 type intersect struct {
